@@ -202,14 +202,48 @@ class State:
             self.forget(name)
             self.add_eq(Lin.term(name), form)
 
+    def const_of(self, name):
+        """value of a term if the state pins it to one constant"""
+        lo = hi = None
+        for f in self.facts:
+            if len(f.t) == 1 and name in f.t:
+                k = f.t[name]
+                if k == 1:
+                    hi = -f.c if hi is None else min(hi, -f.c)
+                elif k == -1:
+                    lo = f.c if lo is None else max(lo, f.c)
+        return lo if lo is not None and lo == hi else None
+
     def join(self, other):
+        if self._keys == other._keys:
+            return self.copy()
         res = State()
         for f in self.facts:
-            if other.entails(f):
+            if f.key() in other._keys or other.entails(f):
                 res.add(f)
         for f in other.facts:
+            if f.key() in self._keys:
+                continue
             if self.entails(f):
                 res.add(f)
+        # constant-pair hull: terms pinned to (different) constants on both sides lie on a line
+        names = set()
+        for f in self.facts + other.facts:
+            if len(f.t) == 1:
+                names |= set(f.t)
+        pinned = []
+        for nme in sorted(names):
+            a, b = self.const_of(nme), other.const_of(nme)
+            if a is not None and b is not None and a != b:
+                pinned.append((nme, a, b))
+        for i in range(len(pinned)):
+            for k in range(i + 1, len(pinned)):
+                (x, xa, xb), (y, ya, yb) = pinned[i], pinned[k]
+                # (X - xa) * (yb - ya) == (Y - ya) * (xb - xa)
+                l = (Lin.term(x) - xa).scale(yb - ya) - (Lin.term(y) - ya).scale(xb - xa)
+                if len(pinned) <= 6:
+                    res.add(l)
+                    res.add(-l)
         return res
 
     def same(self, other):
@@ -357,18 +391,32 @@ class Analysis:
         bufs = [t for t in l.t if t in self.buffers and l.t[t] == 1]
         if len(bufs) == 1:
             return bufs[0], l - Lin.term(bufs[0])
-        # pointer variables known equal to buffer + offset: look for an equality fact
+        # pointer variables known equal to buffer + offset (possibly through other pointer variables)
+        def resolve(t, depth):
+            if t in self.buffers:
+                return t, Lin(0)
+            if depth == 0:
+                return None
+            for f in st.facts:
+                if f.t.get(t) != 1:
+                    continue
+                for u, cu in f.t.items():
+                    if u == t or cu != -1:
+                        continue
+                    # t - u - g <= 0 ; need the converse as well:  t = u + g
+                    g = Lin(-f.c, {k: -v for k, v in f.t.items() if k not in (t, u)})
+                    if not st.entails(Lin.term(u) + g - Lin.term(t)):
+                        continue
+                    r = resolve(u, depth - 1)
+                    if r is not None:
+                        return r[0], r[1] + g
+            return None
         for t, cf in l.t.items():
             if cf != 1:
                 continue
-            for b in self.buffers:
-                # t - b - off == 0 facts
-                for f in st.facts:
-                    if f.t.get(t) == 1 and f.t.get(b) == -1:
-                        g = Lin(-f.c, {k: -v for k, v in f.t.items() if k not in (t, b)})   # t = b + g  (from t - b - g <= 0) needs the converse too
-                        conv = Lin.term(b) + g - Lin.term(t)
-                        if st.entails(conv):
-                            return b, (l - Lin.term(t)) + g
+            r = resolve(t, 3)
+            if r is not None and r[0] != t:
+                return r[0], (l - Lin.term(t)) + r[1]
         return None
 
     def check_write(self, ev, ptr_expr, width, st, what):
@@ -381,6 +429,26 @@ class Analysis:
         self.oblige(ev, '%s:offset>=0' % what, -off, st, '%s: offset %r into %s may be negative (index underflow)' % (what, off, buf))
         self.oblige(ev, '%s:within-capacity' % what, off + width - cap, st,
                     '%s: %r + %r <= %r (capacity of %s) is not entailed' % (what, off, width, cap, buf))
+        return True
+
+    def check_read(self, ev, ptr_expr, width, st, what):
+        """read of `width` bytes at ptr_expr from a buffer whose valid extent is tabled in self.readcaps"""
+        caps = getattr(self, 'readcaps', None)
+        if not caps:
+            return False
+        saved = self.buffers
+        self.buffers = caps
+        try:
+            d = self.dest(ptr_expr, st)
+        finally:
+            self.buffers = saved
+        if d is None:
+            return False
+        buf, off = d
+        cap = caps[buf]
+        self.oblige(ev, '%s:offset>=0' % what, -off, st, '%s: offset %r into %s may be negative' % (what, off, buf))
+        self.oblige(ev, '%s:within-valid-bytes' % what, off + width - cap, st,
+                    '%s: %r + %r <= %r (valid bytes of %s) is not entailed' % (what, off, width, cap, buf))
         return True
 
     def check_nowrap(self, ev, e, st, what):
@@ -520,6 +588,8 @@ class Analysis:
                     if d is not None:
                         buf, off = d
                         self.oblige(ev, 'read %s:offset>=0' % estr(e), -off, st, 'read %s: index %r may be negative' % (estr(e), off))
+                if b is not None and getattr(self, 'readcaps', None):
+                    self.check_read(ev, {'k': 'addr', 'e': e}, Lin(1), st, 'read %s' % estr(e))
         elif ev.kind == 'CALL':
             c = ev.callee
             if c in self.summaries:
@@ -543,6 +613,8 @@ class Analysis:
             self.check_nowrap(ev, a[2], st, c)
             if n is not None:
                 self.check_write(ev, a[0], n, st, '%s(%s, ..., %s)' % (c, estr(a[0]), estr(a[2])))
+                if c != 'memset':
+                    self.check_read(ev, a[1], n, st, '%s(.., %s, %s) source' % (c, estr(a[1]), estr(a[2])))
             else:
                 d = self.dest(a[0], st)
                 if d is not None:
@@ -563,28 +635,76 @@ class Analysis:
                 self.oblige(ev, '%s:unbounded' % c, None, st, 'unbounded %s into %s' % (c, d[0]))
 
     def refine(self, st, cond, lab):
+        """add the facts of the edge (cond == lab) to st; returns False when the edge is infeasible in st"""
+        feasible = True
         for at in atoms_of(cond, lab):
             l, r = self.lin(at.l, st), self.lin(at.r, st)
             if l is None or r is None:
                 continue
             op = at.op
+            new = []
             if op == '<=':
-                st.add(l - r)
+                new = [l - r]
             elif op == '<':
-                st.add(l - r + 1)
+                new = [l - r + 1]
             elif op == '>=':
-                st.add(r - l)
+                new = [r - l]
             elif op == '>':
-                st.add(r - l + 1)
+                new = [r - l + 1]
             elif op == '==':
-                st.add(l - r)
-                st.add(r - l)
+                new = [l - r, r - l]
             elif op == '!=':
-                # x != 0 with x >= 0  =>  x >= 1
-                if st.entails(r - l):      # l >= r
-                    st.add(r - l + 1)
-                elif st.entails(l - r):    # l <= r
-                    st.add(l - r + 1)
+                # x != y with x >= y  =>  x >= y + 1   (and symmetrically)
+                if st.entails(r - l) and st.entails(l - r):
+                    feasible = False
+                elif st.entails(r - l):
+                    new = [r - l + 1]
+                elif st.entails(l - r):
+                    new = [l - r + 1]
+            for f in new:
+                # f <= 0 contradicts the state iff the state entails f >= 1
+                if st.entails(-f + 1):
+                    feasible = False
+                st.add(f)
+        return feasible
+
+    def _pure_cond(self, blk):
+        """a block that only evaluates its condition (no stores, calls or declarations)"""
+        return blk.cond is not None and all(ev.kind == 'LOAD' for ev in blk.events)
+
+    def _block_outs(self, b, states):
+        """states: {key: State} arriving at block b.  Returns {succ: {key: State}} - for a pure condition block every
+        arriving state is refined separately (path sensitivity across if / else-if / && / || chains), otherwise the
+        arriving states are joined first."""
+        fn = self.fn
+        blk = fn.blocks[b]
+        res = {}
+        if self._pure_cond(blk) and len(states) <= 8:
+            groups = list(states.items())
+        else:
+            acc = None
+            for st in states.values():
+                st = self.with_types(st.copy())
+                acc = st if acc is None else acc.join(st)
+            groups = [(None, acc)] if acc is not None else []
+        for (key, st0) in groups:
+            st = self.with_types(st0.copy())
+            for ev in blk.events:
+                self.states.setdefault((b, ev.idx), []).append(st.copy())
+                self.transfer(ev, st)
+                self.with_types(st)
+            if blk.noreturn:
+                continue
+            for k, (t, lab) in enumerate(blk.succs):
+                out = st.copy()
+                ok = True
+                if blk.cond is not None and lab in (True, False):
+                    ok = self.refine(out, blk.cond, lab)
+                if not ok:
+                    continue
+                okey = (b, k, key if self._pure_cond(blk) else None)
+                res.setdefault(t, {})[okey] = out
+        return res
 
     def run(self, max_visits=6):
         fn = self.fn
@@ -592,105 +712,94 @@ class Analysis:
         for p in fn.params:
             if p['n'] in self.unsigned:
                 st0.add_le(0, Lin.term(p['n']))
-        IN = {fn.entry: st0}
-        visits = {}
+        INE = {fn.entry: {('entry',): st0}}      # block -> {incoming key: State}
+        changes = {}
+        shapes = {}
         work = [fn.entry]
         steps = 0
         while work:
             steps += 1
-            if steps > 4000:
+            if steps > 6000:
                 raise AnalysisBroken('bounds: no fixpoint in %s' % fn.name)
             b = work.pop()
-            st = self.with_types(IN[b].copy())
-            blk = fn.blocks[b]
-            for ev in blk.events:
-                self.states[(b, ev.idx)] = st.copy()
-                self.transfer(ev, st)
-                self.with_types(st)
-            if blk.noreturn:
-                continue
-            for (t, lab) in blk.succs:
-                out = st.copy()
-                if blk.cond is not None and lab in (True, False):
-                    self.refine(out, blk.cond, lab)
-                    # infeasible edge?  0 <= -1 style contradictions are rare; skip
-                if t not in IN:
-                    IN[t] = out
-                    work.append(t)
-                else:
-                    j = self.with_types(IN[t].copy()).join(self.with_types(out))
-                    if not j.same(IN[t]):
-                        # widening per fact shape: a bound whose constant has been weakened more than twice at this
-                        # block is dropped (ascending chains i <= 0, i <= 1, ...); everything else is kept
-                        oldshapes = {tuple(sorted(f.t.items())): f.c for f in IN[t].facts}
+            outs = self._block_outs(b, INE[b])
+            for t, d in outs.items():
+                cur = INE.setdefault(t, {})
+                changed = False
+                for key, out in d.items():
+                    out = self.with_types(out)
+                    if key not in cur:
+                        cur[key] = out
+                        changed = True
+                        continue
+                    j = self.with_types(cur[key].copy()).join(out)
+                    if not j.same(cur[key]):
+                        # widening per fact shape
+                        oldshapes = {tuple(sorted(f.t.items())): f.c for f in cur[key].facts}
                         keep = []
                         for f in j.facts:
                             sh = tuple(sorted(f.t.items()))
                             if sh in oldshapes and oldshapes[sh] != f.c:
-                                k2 = (t, sh)
-                                visits[k2] = visits.get(k2, 0) + 1
-                                if visits[k2] > 2:
+                                k2 = (t, key, sh)
+                                shapes[k2] = shapes.get(k2, 0) + 1
+                                if shapes[k2] > 2:
                                     continue
                             keep.append(f)
-                        j = State(keep)
-                        IN[t] = j
-                        work.append(t)
-        # narrowing: the state reached is a post-fixpoint (widening may have dropped bounds that the edge guards
-        # re-establish); two descending rounds IN := F(IN) recover them and stay sound
-        order = []
-        seen = set()
-
-        def dfs(n):
-            stack = [(n, iter([t for (t, _l) in fn.blocks[n].succs]))]
-            seen.add(n)
-            while stack:
-                x, it = stack[-1]
-                for t in it:
-                    if t not in seen:
-                        seen.add(t)
-                        stack.append((t, iter([u for (u, _l) in fn.blocks[t].succs])))
-                        break
-                else:
-                    order.append(x)
-                    stack.pop()
-        dfs(fn.entry)
+                        cur[key] = State(keep)
+                        changed = True
+                if len(cur) > 10:
+                    acc = None
+                    for st in cur.values():
+                        acc = st if acc is None else acc.join(st)
+                    INE[t] = {('merged',): acc}
+                    changed = True
+                if changed:
+                    work.append(t)
+        # narrowing: two descending rounds in reverse post-order (sound: F of a post-fixpoint is a post-fixpoint)
+        order, seen = [], set()
+        stack = [(fn.entry, iter([t for (t, _l) in fn.blocks[fn.entry].succs]))]
+        seen.add(fn.entry)
+        while stack:
+            x, it = stack[-1]
+            for t in it:
+                if t not in seen:
+                    seen.add(t)
+                    stack.append((t, iter([u for (u, _l) in fn.blocks[t].succs])))
+                    break
+            else:
+                order.append(x)
+                stack.pop()
         order.reverse()
-
-        def edge_out(pb, tb):
-            st = self.with_types(IN[pb].copy())
-            blk = fn.blocks[pb]
-            for ev in blk.events:
-                self.transfer(ev, st)
-                self.with_types(st)
-            outs = []
-            for (t, lab) in blk.succs:
-                if t != tb:
-                    continue
-                out = st.copy()
-                if blk.cond is not None and lab in (True, False):
-                    self.refine(out, blk.cond, lab)
-                outs.append(out)
-            return outs
+        OUTS = {b: self._block_outs(b, INE[b]) for b in INE}
         for _round in range(2):
             for bnode in order:
-                if bnode == fn.entry or bnode not in IN:
+                if bnode not in INE:
                     continue
-                acc = None
-                for pb in fn.blocks[bnode].preds:
-                    if pb not in IN or fn.blocks[pb].noreturn:
-                        continue
-                    for o in edge_out(pb, bnode):
-                        o = self.with_types(o)
-                        acc = o if acc is None else acc.join(o)
-                if acc is not None:
-                    IN[bnode] = acc
-        self.IN = IN
-        # final pass: recompute obligations with the fixpoint states only
-        self.obligations, self._ob_seen, self.returns = [], {}, []
-        for b, st in IN.items():
-            st = self.with_types(st.copy())
-            for ev in fn.blocks[b].events:
-                self.states[(b, ev.idx)] = st.copy()
-                self.transfer(ev, st)
-                self.with_types(st)
+                if bnode != fn.entry:
+                    new = {}
+                    for pb in fn.blocks[bnode].preds:
+                        if pb not in OUTS or fn.blocks[pb].noreturn:
+                            continue
+                        for key, st in OUTS[pb].get(bnode, {}).items():
+                            new[key] = self.with_types(st)
+                    if new:
+                        if len(new) > 10:
+                            acc = None
+                            for st in new.values():
+                                acc = st if acc is None else acc.join(st)
+                            new = {('merged',): acc}
+                        INE[bnode] = new
+                OUTS[bnode] = self._block_outs(bnode, INE[bnode])
+        self.INE = INE
+        self.IN = {}
+        for b, d in INE.items():
+            acc = None
+            for st in d.values():
+                st = self.with_types(st.copy())
+                acc = st if acc is None else acc.join(st)
+            self.IN[b] = acc
+        # final pass: obligations and return states from the fixpoint only
+        self.obligations, self._ob_seen, self.returns, self.states = [], {}, [], {}
+        for b in INE:
+            self._block_outs(b, INE[b])
         return self
